@@ -48,7 +48,7 @@ func withAuditSubs(subs func(b byte) []byte) func(b byte) []byte {
 
 // insertBytes: the single bytes inserted at every offset.
 func insertBytes() []byte {
-	out := []byte{'X', '\n', ' '}
+	out := []byte{'X', '\n', ' ', '\r', '\t', 0x00, 0xff}
 	for _, c := range auditBytes() {
 		if bytes.IndexByte(out, c) < 0 {
 			out = append(out, c)
